@@ -46,6 +46,10 @@ const (
 	evCloseOld
 	// evRelease releases subscription Sub.
 	evRelease
+	// evGhost (kind "latejoin"): a harness-driven peer with a foreign identity
+	// attaches to Node and sends Subscribe=false for Ch, which it never
+	// announced on that stream (see c28late_test.go).
+	evGhost
 )
 
 type event struct {
@@ -57,6 +61,8 @@ type event struct {
 	// SameUUID (evLink on an edge that was linked before): re-establish under
 	// the link id the edge had before instead of a fresh one.
 	SameUUID bool
+	Ch       string // evGhost
+	Mode     int    // evGhost
 }
 
 func (e event) String() string {
@@ -76,6 +82,8 @@ func (e event) String() string {
 		return fmt.Sprintf("close-old#%d", e.Edge)
 	case evRelease:
 		return fmt.Sprintf("release#%d", e.Sub)
+	case evGhost:
+		return fmt.Sprintf("ghost-unsub@%d/%s/m%d", e.Node, e.Ch, e.Mode)
 	}
 	return "barrier"
 }
@@ -706,6 +714,7 @@ type c28run struct {
 	hnd map[int]int    // handler id -> node
 	// foreign identities: disjoint from the link identities of the mesh
 	foreign []*keys.Identity
+	nghost  int
 }
 
 // ident resolves a key index of a spec (0 = the node's link identity).
@@ -809,6 +818,8 @@ func (x *c28run) apply(e event) bool {
 				break
 			}
 		}
+	case evGhost:
+		x.ghost(e)
 	case evBarrier:
 		return x.quiesce("barrier")
 	}
@@ -1258,7 +1269,7 @@ func runC28(r *vf.Run, env *g9mesh.Env, pool []*keys.Identity, c *c28cfg, jr *jo
 			r.Case(c.desc(), false)
 			return
 		}
-		if !x.checkViews() && c.Kind != "churn" && c.Kind != "lifecycle" {
+		if !x.checkViews() && c.Kind != "churn" && c.Kind != "lifecycle" && c.Kind != "latejoin" {
 			// (churn / lifecycle configurations go on: delivery is judged as well)
 			r.Case(c.desc(), false)
 			return
@@ -1304,6 +1315,10 @@ func runC28(r *vf.Run, env *g9mesh.Env, pool []*keys.Identity, c *c28cfg, jr *jo
 	}
 	r.Distinct("wire_orders", c.G.name+strings.Join(order, ","))
 	r.Distinct("topologies", fmt.Sprint(c.G.n, c.G.edges))
+	if c.Kind == "latejoin" {
+		r.Count("latejoin_configurations", 1)
+		r.Count("latejoin_unsubscribes_for_never_announced_channel_seen_on_real_links", x.countLateUnsubs())
+	}
 	r.Count("deliveries_observed", len(m.Deliveries()))
 	r.Case(c.desc(), nontrivial)
 	r.Sample(map[string]any{"case": c.Idx, "config": c.desc(), "deliveries": len(m.Deliveries())})
@@ -1312,7 +1327,7 @@ func runC28(r *vf.Run, env *g9mesh.Env, pool []*keys.Identity, c *c28cfg, jr *jo
 func TestC28(t *testing.T) {
 	r := vf.Start(t, "C28", vf.Exploration)
 	defer r.Finish()
-	r.SetRule("configuration = (connected graph: all 9 connected graphs on 2-4 nodes, line/star/ring/complete/PRNG graphs on 5-6 nodes; PRNG node relabelling) x (PRNG subscriber subsets on 1-2 channels, 1-2 handlers, sometimes 2 subscriptions per node/channel) x (PRNG order of Execute start / AddSubscription / AddPeerStream events with quiescence barriers; optionally a second round of late subscriptions and links) x (1-5 publishes per round from PRNG origins, via the subscription or FloodSub.Publish, sequential or concurrent); plus burst configurations (dense graphs, 40+ concurrent publishes), stream-replacement configurations (the stream of an existing (peer, link) tuple is replaced during a burst), delay configurations (mostly cyclic graphs; PRNG directions of edges - preferably out of the publishing nodes - hold back their copies (reads held) or stall until the rest of the mesh is exactly quiescent, then are opened one by one) and back-pressure configurations (trees / small cyclic graphs; the streams on one direction of an edge, on all edges into a victim node or on a PRNG set of directions stop draining (writes block) while 40-200 messages are published sequentially or concurrently from one or from PRNG origins; released when a router is parked on a full send queue or everything is exactly quiescent), multigraph configurations (small graphs on 3-5 nodes in which 1-2 PRNG links, or every link, are doubled or tripled: parallel streams with different link ids between the same pair of nodes, either side initiating, established together with or a round after the first link, sometimes one of the parallel links slow (reads held); publishers are PRNG nodes, so neighbours forward third-party messages over parallel links; the wire rules are evaluated per PEER over all of its links) and stalled-replacement configurations (the stream of edge 0's (peer, link) tuple is replaced on both ends while the old stream is stalled with 1-3 publishes stuck in its write, exact quiescence = replacement sessions started, then the old stream drains or is closed so that the old sessions exit late; then one publish from every node must be delivered exactly), link-churn configurations (small graphs on 2-4 nodes; the link of an edge - mostly the same edge again - is torn down (stream closed in both directions, sessions end) and re-established 1-3 times under a NEW link id, sometimes the old one: break-before-make with or without exact quiescence or publishes on the reduced graph in between, make-before-break (new link next to the old one, then the old one is lost), or either of them from a second goroutine while 12-24 publishes are in flight; after every step views and exact delivery of 2-5 publishes are judged and finally 30-44 publishes, mostly from the ends of the churned edges, must each be delivered exactly once) and subscription-lifecycle configurations (1-2 nodes - publishers, relays, leaves - release their last subscription to the channel, the mesh becomes exactly quiescent so that the unsubscribe was announced, publishes are judged with the node unsubscribed, then the node subscribes to the SAME channel again, 1-3 cycles, also with only a barrier or nothing in between; neighbour views and exact delivery judged after every step; sometimes a second channel stays subscribed throughout). Every subscription / direct publish signs with the node's link identity or with a foreign identity (key mode node / foreign / mixed per configuration). Half of the run has a scheduler yield installed at floodsub.seen.gap. Non-trivial = at least one message was observed exactly once at a handler on a node other than its origin and every demanded delivery was present at exact quiescence (pipes empty, readers parked, all floodsub goroutines of the mesh parked at their idle selects). Oracle = refFloodReach reference model: exactly-once per handler on reachable subscribers, zero elsewhere, no copy on an edge into the origin, every forwarded copy preceded (tap clock) by a reception from another peer.")
+	r.SetRule("configuration = (connected graph: all 9 connected graphs on 2-4 nodes, line/star/ring/complete/PRNG graphs on 5-6 nodes; PRNG node relabelling) x (PRNG subscriber subsets on 1-2 channels, 1-2 handlers, sometimes 2 subscriptions per node/channel) x (PRNG order of Execute start / AddSubscription / AddPeerStream events with quiescence barriers; optionally a second round of late subscriptions and links) x (1-5 publishes per round from PRNG origins, via the subscription or FloodSub.Publish, sequential or concurrent); plus burst configurations (dense graphs, 40+ concurrent publishes), stream-replacement configurations (the stream of an existing (peer, link) tuple is replaced during a burst), delay configurations (mostly cyclic graphs; PRNG directions of edges - preferably out of the publishing nodes - hold back their copies (reads held) or stall until the rest of the mesh is exactly quiescent, then are opened one by one) and back-pressure configurations (trees / small cyclic graphs; the streams on one direction of an edge, on all edges into a victim node or on a PRNG set of directions stop draining (writes block) while 40-200 messages are published sequentially or concurrently from one or from PRNG origins; released when a router is parked on a full send queue or everything is exactly quiescent), multigraph configurations (small graphs on 3-5 nodes in which 1-2 PRNG links, or every link, are doubled or tripled: parallel streams with different link ids between the same pair of nodes, either side initiating, established together with or a round after the first link, sometimes one of the parallel links slow (reads held); publishers are PRNG nodes, so neighbours forward third-party messages over parallel links; the wire rules are evaluated per PEER over all of its links) and stalled-replacement configurations (the stream of edge 0's (peer, link) tuple is replaced on both ends while the old stream is stalled with 1-3 publishes stuck in its write, exact quiescence = replacement sessions started, then the old stream drains or is closed so that the old sessions exit late; then one publish from every node must be delivered exactly), link-churn configurations (small graphs on 2-4 nodes; the link of an edge - mostly the same edge again - is torn down (stream closed in both directions, sessions end) and re-established 1-3 times under a NEW link id, sometimes the old one: break-before-make with or without exact quiescence or publishes on the reduced graph in between, make-before-break (new link next to the old one, then the old one is lost), or either of them from a second goroutine while 12-24 publishes are in flight; after every step views and exact delivery of 2-5 publishes are judged and finally 30-44 publishes, mostly from the ends of the churned edges, must each be delivered exactly once) and subscription-lifecycle configurations (1-2 nodes - publishers, relays, leaves - release their last subscription to the channel, the mesh becomes exactly quiescent so that the unsubscribe was announced, publishes are judged with the node unsubscribed, then the node subscribes to the SAME channel again, 1-3 cycles, also with only a barrier or nothing in between; neighbour views and exact delivery judged after every step; sometimes a second channel stays subscribed throughout) and late-joiner configurations (kind latejoin, c28late_test.go: 3-4 nodes; A has exactly one other neighbour C recorded as subscribed, sometimes a further node D behind B, A or C; node B subscribes - announced or not -, releases its last subscription and is linked to A back to back in every order of subscribe / release / link, with or without an exact quiescent point between the steps, so that A receives Subscribe=false from B for a channel B never announced on that stream; the join link is torn down and the step repeated 1-3 times; the same protocol-legal input is also produced deterministically by a harness-driven peer with a foreign identity that attaches to A or a PRNG node and sends Subscribe=false for a channel it never announced, alone, after an empty initial set or after announcing another channel; views and exact delivery of 3-5 publishes judged after every step). Every subscription / direct publish signs with the node's link identity or with a foreign identity (key mode node / foreign / mixed per configuration). Half of the run has a scheduler yield installed at floodsub.seen.gap. Non-trivial = at least one message was observed exactly once at a handler on a node other than its origin and every demanded delivery was present at exact quiescence (pipes empty, readers parked, all floodsub goroutines of the mesh parked at their idle selects). Oracle = refFloodReach reference model: exactly-once per handler on reachable subscribers, zero elsewhere, no copy on an edge into the origin, every forwarded copy preceded (tap clock) by a reception from another peer.")
 	r.Assume("reachable = reachable through peers subscribed to the channel (DESIGN 8)")
 	r.Assume("the original publisher of a message is the peer whose key signed it (from_peer_id). Subscriptions / publishes use the node's link identity or a foreign key (an identity that is not the link identity of any node of the mesh). With the node key, no copy may appear on any edge into the publishing node. With a foreign key the original publisher is not a peer anybody holds a link to, so copies on edges into the publishing node are only counted; exactly-once hand-over to every local subscription (including those of the publishing node), delivery to every reachable subscriber and the previous-hop rule for every forwarding node are demanded unchanged. Publishing with the link identity of ANOTHER node of the mesh is not exercised")
 	r.Assume("closed gates (held reads = a slow link, stalled writes = a stream that does not drain) are opened when the mesh rests against them, decided from goroutine states (exact quiescence with all publish calls returned, or a router parked on a full per-peer send queue), never from elapsed time; once all gates are open and the mesh is exactly quiescent delivery must be exact")
@@ -1338,6 +1353,8 @@ func TestC28(t *testing.T) {
 	nChurn := r.N(32, 500)
 	churnFinal := r.N(30, 40)
 	nLife := r.N(32, 500)
+	nLate := r.N(32, 500)
+	rngLate := r.Rand("c28-latejoin")
 	var phases [2][]*c28cfg
 	idx := 0
 	for ph := 0; ph < 2; ph++ {
@@ -1375,6 +1392,10 @@ func TestC28(t *testing.T) {
 		}
 		for i := 0; i < nLife/2; i++ {
 			phases[ph] = append(phases[ph], genC28Life(rng, idx, ph == 1))
+			idx++
+		}
+		for i := 0; i < nLate/2; i++ {
+			phases[ph] = append(phases[ph], genC28Late(rngLate, idx, ph == 1))
 			idx++
 		}
 	}
